@@ -455,6 +455,7 @@ def _check_class(ctx: Ctx, cls: ClassInfo, idx_bin: int) -> None:
                                f"{show(at[2][0])} cells; the kernel indexes "
                                "it by bin id - 1 < n_items",
                                construct=f"scratch size {cls.name}")
+                        _scratch_type(ctx, cls, evm, a, kern, p)
                     else:
                         env.vars[p] = v
                         if p in ("bin_width", "bin_height"):
@@ -1046,3 +1047,65 @@ def _skyline_sweep(ctx: Ctx, modname: str, fname: str, per_bin: bool) \
     del hp
 
 
+
+
+
+def _scratch_type(ctx: Ctx, cls: ClassInfo, evm: FuncInfo, a: ast.expr,
+                  kern: FuncInfo, p: str) -> None:
+    """D2.3 continued: the scratch cells hold what the kernel accumulates in
+    them.  A kernel that adds products (areas w*h, up to the bin area) needs
+    the 64-bit integer type the objective values are computed in; one that
+    only counts (at most n_items) may also use the instance's own type."""
+    repo = ctx.repo
+    fld = a.attr if isinstance(a, ast.Attribute) else None
+    alloc = None
+    for c in repo.mro(cls) if hasattr(repo, "mro") else [cls]:
+        init = c.methods.get("__init__")
+        for st in ast.walk(init.node) if init else []:
+            tg = st.targets[0] if isinstance(st, ast.Assign) and len(
+                st.targets) == 1 else (st.target if isinstance(
+                    st, ast.AnnAssign) and st.value is not None else None)
+            if isinstance(tg, ast.Attribute) and fld is not None and \
+                    tg.attr.lstrip("_").split("__")[-1] == fld.lstrip(
+                    "_").split("__")[-1] and isinstance(st.value, ast.Call):
+                alloc = st.value
+    if alloc is None:
+        return
+    dt = alloc.args[1] if len(alloc.args) >= 2 else next(
+        (k.value for k in alloc.keywords if k.arg == "dtype"), None)
+    products = any(
+        isinstance(n, ast.AugAssign) and isinstance(
+            n.target, ast.Subscript) and isinstance(
+            n.target.value, ast.Name) and n.target.value.id == p and any(
+            isinstance(m, ast.BinOp) and isinstance(m.op, ast.Mult)
+            for m in ast.walk(n.value)) for n in ast.walk(kern.node)) or any(
+        isinstance(n, ast.Assign) and isinstance(
+            n.targets[0], ast.Subscript) and isinstance(
+            n.targets[0].value, ast.Name) and n.targets[0].value.id == p
+        and any(isinstance(m, ast.BinOp) and isinstance(m.op, ast.Mult)
+                for m in ast.walk(n.value)) for n in ast.walk(kern.node))
+    src = ast.unparse(dt) if dt is not None else "(none: float64)"
+    leaf = src.split(".")[-1]
+    wide = leaf in ("int", "int64", "DEFAULT_INT", "int_", "intp",
+                    "longlong")
+    inst = leaf == "dtype" and "inst" in src
+    narrow = leaf in ("int32", "int16", "int8", "uint32", "uint16", "uint8",
+                      "intc", "short", "float32")
+    if products:
+        ok = wide
+        why = (f"scratch `{ast.unparse(a)}` accumulates areas (products) "
+               f"in cells of type `{src}`")
+        if not ok:
+            why += (": narrower than the 64-bit integers of the objective "
+                    "value - a per-bin area sum beyond that type wraps "
+                    "(bins up to 10^12 x 10^12 are accepted)" if narrow
+                    or inst else ": this cell type is not recognised")
+    else:
+        ok = wide or inst
+        why = (f"scratch `{ast.unparse(a)}` holds counts (<= n_items) in "
+               f"cells of type `{src}`")
+        if not ok:
+            why += (": may not hold n_items" if narrow else
+                    ": this cell type is not recognised")
+    ctx.ob("D2.3", evm, alloc, ok, why,
+           construct=f"scratch cell type {cls.name}", nontrivial=False)
